@@ -257,3 +257,24 @@ PROPS["C16"]["jobs"] = lambda tier: _c16_jobs(tier) + [
     seeded("procseq", "unit", "^TestC16ProcSeq$", 1500 if tier == "quick" else 20000, 1 if tier == "quick" else 4, timeout=1800)]
 PROPS["C16"]["rule"] += (" (procseq) sequential programs of <=24 operations over {push, Start, Close} incl. Close before Start and Start after "
                          "Close, compared step by step with a model: nothing executes after Close returned.")
+
+PROPS["C20"] = dict(
+    title="URL fidelity: path, query and track resolution agree between client and server",
+    pkg="e2e",
+    rule=("rapid-generated stream URLs: 1..4 path segments from an alphabet of plain, unreserved, '='/'&', 'trackID=n' look-alikes, percent-escapes "
+          "(%20 %41 %2F %3D %2B %25 %3F %23 UTF-8), sub-delims and non-ASCII letters; optional queries (incl. '/' and '/trackID=' inside values, "
+          "escapes); authorities 127.0.0.1 / [::1] / localhost; user-info present or absent; 1..4 medias set up in a drawn order (any subset "
+          "when playing); TCP or UDP; a library client describes/sets up/plays or announces/sets up/records against a library server. Oracles: "
+          "every DESCRIBE/ANNOUNCE/SETUP/PLAY/RECORD handler sees exactly (decoded path, raw query) of the original URL; after the k-th SETUP "
+          "the session's k-th media is the media the client asked for (pointer identity with the stream / announced description); every byte "
+          "the client writes is tapped and no request line carries user-info. Non-trivial: URL with a query or an odd segment and >=2 medias. "
+          "Distinct by case hash."),
+    assumptions=[
+        "domain per the property: non-empty decoded path not ending in '/', raw query not ending in '/'",
+        "a recording client sets up every announced media (library requirement) - subsets only when playing",
+    ],
+    jobs=lambda tier: [
+        seeded("play", "e2e", "^TestC20Play$", 150 if tier == "quick" else 4000, 8 if tier == "quick" else 16, timeout=1800),
+        seeded("record", "e2e", "^TestC20Record$", 150 if tier == "quick" else 4000, 8 if tier == "quick" else 16, timeout=1800),
+    ],
+)
